@@ -649,3 +649,25 @@ add("C06", "benign-lookup-respelled", "codemodder/result.py",
 add("C06", "lookup-by-absolute-file", "codemodder/result.py",
     [("        return self.get(rule_id, {}).get(file.relative_to(context.directory), [])", "        return self.get(rule_id, {}).get(file, [])")],
     "fire", "R-RULE-KEYED", "results_for_rule_and_file")
+
+# --------------------------------------------------------------------------- C17 selection semantics (spelling-independent)
+REG = "codemodder/registry.py"
+_EXC_OLD = "            base_codemods = {}\n            patterns = [\n                _wildcard_to_regex(exclude)\n                for exclude in codemod_exclude\n                if \"*\" in exclude\n            ]\n            names = set(name for name in codemod_exclude if \"*\" not in name)\n\n            for codemod in self.codemods:\n                if codemod.id in names or any(\n                    pat.fullmatch(codemod.id) for pat in patterns\n                ):\n                    continue\n\n                if bool(sast_only) != bool(codemod.origin == \"pixee\"):\n                    base_codemods[codemod.id] = codemod\n\n            # Remove duplicates and preserve order\n            return list(base_codemods.values())\n"
+add("C17", "benign-exclude-branch-as-comprehension", REG,
+    [(_EXC_OLD, "            patterns = [_wildcard_to_regex(exclude) for exclude in codemod_exclude if \"*\" in exclude]\n            names = {name for name in codemod_exclude if \"*\" not in name}\n            want_pixee = not sast_only\n            return [\n                codemod\n                for codemod in self.codemods\n                if codemod.id not in names\n                and not any(pat.fullmatch(codemod.id) for pat in patterns)\n                and (codemod.origin == \"pixee\") == want_pixee\n            ]\n")],
+    "silent")
+add("C17", "exclude-branch-eligibility-dropped-in-comprehension", REG,
+    [(_EXC_OLD, "            patterns = [_wildcard_to_regex(exclude) for exclude in codemod_exclude if \"*\" in exclude]\n            names = {name for name in codemod_exclude if \"*\" not in name}\n            return [\n                codemod\n                for codemod in self.codemods\n                if codemod.id not in names\n                and not any(pat.fullmatch(codemod.id) for pat in patterns)\n                and (codemod.origin == \"pixee\" or sast_only)\n            ]\n")],
+    "fire", "R-SAST-ONLY-SOURCE", "match_codemods")
+add("C17", "exclude-branch-sorted-by-name", REG,
+    [("            return list(base_codemods.values())\n", "            return sorted(base_codemods.values(), key=lambda c: c.name)\n")],
+    "fire", "R-ORDER-PRESERVED", "match_codemods")
+add("C17", "include-branch-list-concat", REG,
+    [("                for code in pattern_matches:\n                    matched_codemods.setdefault(code.id, code)\n", "                for code in pattern_matches:\n                    matched_codemods.setdefault(code.name, code)\n")],
+    "fire", "R-SELECT-UNIQUE", "match_codemods")
+add("C17", "csv-items-through-set", "codemodder/cli.py",
+    [("        items = list(dict.fromkeys(values.split(\",\")).keys())", "        items = list(set(values.split(\",\")))")],
+    "fire", "R-CLI-EXCLUSIVE", "CsvListAction")
+add("C17", "benign-csv-without-dedup", "codemodder/cli.py",
+    [("        items = list(dict.fromkeys(values.split(\",\")).keys())", "        items = [item for item in values.split(\",\")]")],
+    "silent")
